@@ -18,6 +18,7 @@ import JanetModel.Value.RobinDup
 import JanetModel.Value.LayoutTests
 import JanetModel.Value.NaN
 import JanetModel.Value.StringLoop
+import JanetModel.Value.AbstractInt
 
 namespace JanetModel.Props.C03
 open JanetModel.Value
@@ -535,5 +536,132 @@ example : Value.hash (JVal.tuple false [.num ⟨0⟩] : JVal F64) = Value.hash (
 /-- bracketed and parenthesised tuples with the same elements differ -/
 example : equals (.tuple true [.nil] : JVal F64) (.tuple false [.nil]) = false := by decide
 example : jcompare (.tuple true [.nil] : JVal F64) (.tuple false [.nil]) = .gt := by decide
+
+/-! ### abstract values with compare / hash hooks (session 4b; model `Value/Abstract.lean`)
+
+`AVal N` = the values of `JVal N` plus abstract values (an address; `janet_abstract_type`, the payload and the hooks of a
+type are reads of memory: class `AbsHeap`).  `compareAbstract` = value.c `janet_compare_abstract` statement by statement; the
+JANET_ABSTRACT cases of janet_equals / janet_compare / janet_hash dispatch to it / to the hash hook.  The hooks are parameters.
+GIVEN LAWFUL HOOKS (`LawfulAbstract`: the sign of every compare hook is a total preorder on payloads, and a type with a
+compare hook has a hash hook respecting it) every law of the property holds of ALL values, abstracts inside tuples, struct
+keys, struct values and prototypes included.  The hooks of inttypes.c are lawful. -/
+
+section abstracts
+variable [AbsHeap] [LawfulAbstract]
+
+/-- `=` is an equivalence on values containing abstracts, and equal values hash alike -/
+theorem abstract_equals_equivalence_and_hash :
+    (∀ a : AVal N, equalsL a a = true) ∧ (∀ a b : AVal N, equalsL a b = equalsL b a) ∧
+    (∀ a b c : AVal N, equalsL a b = true → equalsL b c = true → equalsL a c = true) ∧
+    (∀ a b : AVal N, equalsL a b = true → hashL a = hashL b) := by
+  refine ⟨fun a => ?_, fun a b => ?_, fun a b c h1 h2 => ?_, fun a b h => ?_⟩
+  · rw [equalsL_eq_contentEqL_both.1]; exact contentEqL_refl_both.1 a
+  · rw [equalsL_eq_contentEqL_both.1, equalsL_eq_contentEqL_both.1]; exact contentEqL_symm_both.1 a b
+  · rw [equalsL_eq_contentEqL_both.1] at *; exact contentEqL_trans_both.1 a b c h1 h2
+  · rw [equalsL_eq_contentEqL_both.1] at h; exact contentEqL_hash_both.1 a b h
+
+theorem abstract_compare_antisymm (a b : AVal N) : jcompareL b a = (jcompareL a b).swap :=
+  (swapL_all _).1 a b (Nat.le_refl _)
+
+theorem abstract_compare_triple (a b c : AVal N) : Tri (jcompareL a b) (jcompareL b c) (jcompareL a c) :=
+  (triL_all _).1 a b c (Nat.le_refl _)
+
+/-- compare = 0 ⇔ `=` on values containing abstracts -/
+theorem abstract_compare_eq_zero_iff_equals (a b : AVal N) : jcompareL a b = .eq ↔ equalsL a b = true := by
+  rw [equalsL_eq_contentEqL_both.1]; exact (eqiffL_all _).1 a b (Nat.le_refl _)
+
+/-- `compare` (hence `<`, `<=`, `>`, `>=`) is ONE total order on values containing abstracts: antisymmetric as a three-way
+    comparison, `≤` both ways ⇒ `=`, transitive (`≤`, and `<` through `≤` on either side), total -/
+theorem abstract_compare_total_order :
+    (∀ a b : AVal N, jcompareL b a = (jcompareL a b).swap) ∧
+    (∀ a b : AVal N, jleL a b = true → jleL b a = true → equalsL a b = true) ∧
+    (∀ a b c : AVal N, jleL a b = true → jleL b c = true → jleL a c = true) ∧
+    (∀ a b c : AVal N, jcompareL a b = .lt → jcompareL b c ≠ .gt → jcompareL a c = .lt) ∧
+    (∀ a b c : AVal N, jcompareL a b ≠ .gt → jcompareL b c = .lt → jcompareL a c = .lt) ∧
+    (∀ a b : AVal N, jleL a b = true ∨ jleL b a = true) := by
+  refine ⟨abstract_compare_antisymm, ?_, ?_, fun a b c => (abstract_compare_triple a b c).2.1,
+    fun a b c => (abstract_compare_triple a b c).2.2.1, ?_⟩
+  · intro a b h1 h2
+    rw [← abstract_compare_eq_zero_iff_equals]
+    unfold jleL at h1 h2; rw [abstract_compare_antisymm a b] at h2
+    cases h : jcompareL a b <;> simp_all
+  · intro a b c h1 h2
+    unfold jleL at *
+    have := (abstract_compare_triple a b c).1 (by simpa using h1) (by simpa using h2)
+    simpa using this
+  · intro a b
+    unfold jleL; rw [abstract_compare_antisymm a b]; cases jcompareL a b <;> simp
+
+omit [LawfulNum N] [LawfulAbstract] in
+/-- the abstract-free model `JVal N` (every other theorem of this file) is the fragment of `AVal N` without abstracts:
+    hash, `=` and compare commute with the embedding -/
+theorem abstract_model_extends_value_model (a b : JVal N) :
+    hashL (ofJVal a) = hash a ∧ equalsL (ofJVal a) (ofJVal b) = equals a b ∧ jcompareL (ofJVal a) (ofJVal b) = jcompare a b :=
+  ⟨ofJVal_hash_both.1 a, ofJVal_equals_both.1 a b, ofJVal_compare_both.1 a b⟩
+
+omit [LawfulNum N] in
+/-- what `janet_compare_abstract` computes: type pointer first, then the compare hook (or the address when there is none).
+    Its first statement `if (xx == yy) return 0` is a pure short-cut (the hook of a lawful type is reflexive); two abstracts of
+    DIFFERENT types — an s64 and a u64 with whatever payloads — are ordered by the addresses of their JanetAbstractType
+    records and are never `=`. -/
+theorem compare_abstract_is_type_then_hook (a b : UInt64) :
+    ordOfInt (compareAbstract a b) = (natCmp (AbsHeap.tyOf a) (AbsHeap.tyOf b)).then (absRest a b) ∧
+    (AbsHeap.tyOf a ≠ AbsHeap.tyOf b →
+      jcompareL (.leaf (.abs a) : AVal N) (.leaf (.abs b)) = natCmp (AbsHeap.tyOf a) (AbsHeap.tyOf b) ∧
+      equalsL (.leaf (.abs a) : AVal N) (.leaf (.abs b)) = false) := by
+  refine ⟨cmpAbs_then a b, fun h => ?_⟩
+  have := compareAbstract_of_type_ne a b h
+  exact ⟨this.1, by simp only [equalsL, LeafOps.eq, Leaf.eq]; simpa using this.2⟩
+
+end abstracts
+
+/-- THE HOOKS OF src/core/inttypes.c ARE LAWFUL: `janet_int64_compare` is the order of `int64_t`, `janet_uint64_compare` the
+    order of `uint64_t` (both return only −1, 0, 1, and 0 exactly on identical payloads), `janet_int64_hash` is a function of
+    the payload; so in any memory whose hooked types are `janet_s64_type` / `janet_u64_type` all the laws above hold -/
+theorem inttypes_hooks_lawful :
+    (∀ p q, ordOfInt (int64Compare p q) = intCmp (s64 p) (s64 q)) ∧ (∀ p q, ordOfInt (uint64Compare p q) = natCmp p.toNat q.toNat) ∧
+    (∀ p q, int64Compare p q = 0 ↔ p = q) ∧ (∀ p q, uint64Compare p q = 0 ↔ p = q) ∧
+    (∀ p q, int64Compare p q = -1 ∨ int64Compare p q = 0 ∨ int64Compare p q = 1) ∧
+    (∀ p q, uint64Compare p q = -1 ∨ uint64Compare p q = 0 ∨ uint64Compare p q = 1) ∧
+    (∀ (tyOf : UInt64 → Nat) (payload : UInt64 → UInt64) (hooks : Nat → AbsType UInt64),
+      (∀ t, (hooks t).compare = none ∨ hooks t = s64Type ∨ hooks t = u64Type) → @LawfulAbstract (intHeap tyOf payload hooks)) :=
+  ⟨int64Compare_ord, uint64Compare_ord, int64Compare_eq_zero, uint64Compare_eq_zero, int64Compare_range, uint64Compare_range,
+   intHeap_lawful⟩
+
+/-- tie: the decisions of janet_compare_abstract in source order, the JANET_ABSTRACT cases of janet_hash / janet_equals /
+    janet_compare, and the table of hooked abstract types with the SHAPES of their hook bodies, all regenerated from
+    value.c / inttypes.c (Gen/ValueAbs.lean), are what the model implements -/
+theorem abstract_dispatch_tie :
+    JanetModel.Gen.ValueAbs.compareAbstractSteps = compareAbstract.steps ∧
+    JanetModel.Gen.ValueAbs.hashAbstractHookElsePointer = true ∧ JanetModel.Gen.ValueAbs.equalsAbstractViaCompare = true ∧
+    JanetModel.Gen.ValueAbs.compareAbstractDiffReturned = true ∧
+    JanetModel.Gen.ValueAbs.hookedTypes =
+      [("core/s64", "threeWay:int64_t", "xorWords:int32_t"), ("core/u64", "threeWay:uint64_t", "xorWords:int32_t")] ∧
+    coreHooks "core/s64" = some s64Type ∧ coreHooks "core/u64" = some u64Type :=
+  ⟨by decide, by decide, by decide, by decide, by decide, coreHooks_s64, coreHooks_u64⟩
+
+section abstract_example
+/-- a memory with an s64 at address 16 (payload −1), a u64 at 32 (payload 2^64−1: the same bits), a second s64 at 48
+    (payload −1) and an unhooked abstract at 64; the s64 type record (1000) lies below the u64 one (2000) -/
+local instance exHeap : AbsHeap := intHeap (fun a => if a = 32 then 2000 else if a = 64 then 3000 else 1000)
+  (fun a => if a = 64 then 0 else 0xFFFFFFFFFFFFFFFF) (fun t => if t = 1000 then s64Type else if t = 2000 then u64Type else ⟨none, none⟩)
+
+/-- non-vacuity: that memory is lawful, and: the two s64 are `=` with one hash although different objects; s64 −1 and u64
+    2^64−1 are not `=` and ordered by type, inside a tuple too; an unhooked abstract is only `=` to itself -/
+example :
+    LawfulAbstract ∧
+    equalsL (.leaf (.abs 16) : AVal F64) (.leaf (.abs 48)) = true ∧
+    hashL (.leaf (.abs 16) : AVal F64) = hashL (.leaf (.abs 48) : AVal F64) ∧
+    equalsL (.leaf (.abs 16) : AVal F64) (.leaf (.abs 32)) = false ∧
+    jcompareL (.tuple false [.leaf (.abs 16)] : AVal F64) (.tuple false [.leaf (.abs 32)]) = .lt ∧
+    jcompareL (.leaf (.abs 64) : AVal F64) (.leaf (.abs 16)) = .gt ∧
+    equalsL (.leaf (.abs 64) : AVal F64) (.leaf (.abs 64)) = true := by
+  refine ⟨intHeap_lawful _ _ _ (fun t => ?_), by decide, by decide, by decide, by decide, by decide, by decide⟩
+  by_cases h1 : t = 1000
+  · simp [h1]
+  · by_cases h2 : t = 2000
+    · simp [h1, h2]
+    · simp [h1, h2]
+end abstract_example
 
 end JanetModel.Props.C03
